@@ -169,6 +169,9 @@ TEXTS = [
     "function area(w: number, h: number): number {\n  return w * h;\n}\n",
     "def f(a):\n  return a\n\nx = 1\n",
     "void g() {\n  x = 1;\n}\nclass A {\n  int m() {\n    return 1;\n  }\n}\n",
+    "\n\n\nint lead(int a) {\n  return a;\n}\n\n\n",                                    # leading and trailing blank lines
+    "\n  \ndef lead(a):\n    b = a\n    return b\n",                                          # leading blank / whitespace-only lines
+    "function crlf(a) {\r\n  return a;\r\n}\r\n",                                          # CRLF line ends
 ]
 
 
@@ -209,7 +212,8 @@ def _analyze_history(hist):
             scn.open = saved
     e, t = hist[-1]
     lexer = get_lexer_for_filename("x." + EXTS[e])
-    ms = scan_file(lex(lexer, TEXTS[t], False), Languages.by_name[lexer.__class__.name])
+    text = TEXTS[t].replace("\r\n", "\n").replace("\r", "\n")       # what reading the file in text mode yields
+    ms = scan_file(lex(lexer, text, False), Languages.by_name[lexer.__class__.name])
     alone = (lexer.__class__.name, sum(m.value for m in ms), _sig(ms))
     return res, alone
 
@@ -221,7 +225,7 @@ def h_analyze_history(n: int, e1: int, t1: int, e2: int, t2: int, e3: int, t3: i
     """
     hist = [(_real(e, len(EXTS)), _real(t, len(TEXTS))) for e, t in [(e1, t1), (e2, t2), (e3, t3)]][:_real(n - 1, 3) + 1]
     res, alone = _analyze_history(hist)
-    return fin(res == alone, n >= 2)
+    return fin(res == alone, n >= 2 or FIX_N == 1)
 
 
 def real_h_analyze_history(n, e1, t1, e2, t2, e3, t3):
